@@ -187,6 +187,10 @@ def scalar_blocks(size=4096):
         yield "".join(cur)
 
 
+def _reinstall(ctx):
+    escape.install(ctx)
+
+
 def run(ctx):
     escape.install(ctx)
     try:
@@ -199,6 +203,12 @@ def _run(ctx):
     rng = ctx.rng
     ctx.require("contract.html_escape", 1000)
     ctx.require("oracle.boundary", 1000)
+    if ctx.thorough and ctx.shard == 0:
+        from .. import repotests
+
+        contracts.unpatch_all()  # the plugin installs its own monitors in the pytest process
+        repotests.run_under(ctx, ["escape"])
+        _reinstall(ctx)
     paths = list(PATHS)
     for pth in paths:
         _placeholder(pth)
